@@ -627,3 +627,58 @@ def crashed(rc, stderr):
         return True
     s = stderr if isinstance(stderr, str) else stderr.decode('latin-1', 'replace')
     return 'AddressSanitizer' in s or 'runtime error:' in s or 'terminate called' in s or 'Assertion' in s
+
+
+# ----------------------------------------------------------------- oracle-spec tie
+# The oracles that search for failing inputs are written in Python; the property theorems are stated against the Lean
+# specs (lean/Beeb/Spec).  Every time a Python oracle computes an expectation it also queues the same question for the
+# Lean spec (`spec …` requests of the driver); the runner evaluates the queue after the property module has run and a
+# difference is reported as a broken tie (the oracle no longer says what the theorems are about).
+SPEC_QUEUE = {}
+SPEC_CAP = int(os.environ.get('VERIF_SPEC_CAP', '6000'))
+SPEC_STATS = {'queued': 0, 'dropped': 0}
+
+
+def spec_tie(request, expected):
+    """queue `spec <request>`; `expected` is the response line the Python oracle predicts"""
+    SPEC_STATS['queued'] += 1
+    if request in SPEC_QUEUE:
+        return
+    kind = request.split(' ', 1)[0]
+    if sum(1 for k in SPEC_QUEUE if k.startswith(kind + ' ')) >= SPEC_CAP // 4 or len(request) > 300000:
+        SPEC_STATS['dropped'] += 1
+        return
+    SPEC_QUEUE[request] = expected
+
+
+def spec_flush():
+    """-> (number compared, per-kind counts, [(request, python, lean)] differences, error text or None)"""
+    items = list(SPEC_QUEUE.items())
+    SPEC_QUEUE.clear()
+    if not items:
+        return 0, {}, [], None
+    reqs = ['spec ' + k for k, _ in items]
+    nproc = max(1, min(8, len(reqs) // 200))
+    shares = [list(range(k, len(reqs), nproc)) for k in range(nproc)]
+    outs = [None] * len(reqs)
+
+    def serve(idx):
+        out, rc, err = run_lines(driver_path(), [reqs[i] for i in idx], timeout=1800)
+        if rc != 0 or len(out) != len(idx):
+            raise RuntimeError('model driver failed on spec requests rc=%s (%d/%d): %s' % (rc, len(out), len(idx), err[-300:]))
+        for i, o in zip(idx, out):
+            outs[i] = o
+    try:
+        with cf.ThreadPoolExecutor(max_workers=nproc) as ex:
+            for f in [ex.submit(serve, sh) for sh in shares]:
+                f.result()
+    except Exception as e:
+        return 0, {}, [], str(e)
+    kinds = {}
+    diffs = []
+    for (k, exp), got in zip(items, outs):
+        kd = k.split(' ', 1)[0]
+        kinds[kd] = kinds.get(kd, 0) + 1
+        if got != exp:
+            diffs.append((k[:2000], exp[:2000], (got or '')[:2000]))
+    return len(items), kinds, diffs, None
